@@ -333,7 +333,7 @@ func genC02(dir, tier string, seed int64) {
 	meta.GoOnly = append(meta.GoOnly, effectsAll)
 
 	// ---- stream 2: histories of Runs on one Model vs a fresh Model ----
-	hist := goOnlyResult{Stream: "C02_histories", Rule: "single-node models from every fixture, and the same node reading every tensor through an identity-like node (a one-input Concat or an Expand to the tensor's own shape) (trailing inputs as initializers: weights, biases, initial states, axes, shapes; each also in the variant where those initializers are declared graph inputs, i.e. defaults that some calls of the history override with other values and other calls leave out) + two-node models (LSTM / GRU with default and with explicit activations, two Conv nodes whose dilated kernels have one shape; both orders) + the loadable sample models: histories of 2..6 Runs on ONE Model (same input objects re-used, the same objects refilled in place with other contents -- inputs and overriding weights alike --, fresh copies, interleaved failing calls: missing input, wrong rank); every Run compared bit for bit with the same call on a freshly loaded Model AND with the first result ever observed for these input values; caller tensors and Model parameters (through the verif hook) snapshotted before/after every Run", Violations: []string{}}
+	hist := goOnlyResult{Stream: "C02_histories", Rule: "single-node models from every fixture, and the same node reading every tensor through an identity-like node (a one-input Concat or an Expand to the tensor's own shape) (trailing inputs as initializers: weights, biases, initial states, axes, shapes; each also in the variant where those initializers are declared graph inputs, i.e. defaults that some calls of the history override with other values and other calls leave out) + two-node models (LSTM / GRU with default and with explicit activations, two Conv nodes whose dilated kernels have one shape; both orders) + the loadable sample models: histories of 2..6 Runs on ONE Model (same input objects re-used, the same objects refilled in place with other contents -- inputs and overriding weights alike --, fresh copies, interleaved failing calls: missing input, wrong rank, an input of another element type); every Run compared bit for bit with the same call on a freshly loaded Model AND with the first result ever observed for these input values; caller tensors and Model parameters (through the verif hook) snapshotted before/after every Run", Violations: []string{}}
 	nHist := 2
 	if tier == "thorough" {
 		nHist = 120
@@ -427,6 +427,19 @@ func genC02(dir, tier string, seed int64) {
 					case kind == 4 && len(fm.inNames) > 0: // failing call: an input missing
 						in = fm.mkInputs()
 						delete(in, fm.inNames[r.Intn(len(fm.inNames))])
+					case kind == 5 && len(fm.inNames) > 0 && s%2 == 0: // failing call: an input of another element type (refused inside the node's gate, not by the signature)
+						in = fm.mkInputs()
+						nm := fm.inNames[r.Intn(len(fm.inNames))]
+						sh := in[nm].Shape().Clone()
+						n := 1
+						for _, d := range sh {
+							n *= d
+						}
+						if len(sh) == 0 {
+							in[nm] = tensor.New(tensor.FromScalar("s"))
+						} else {
+							in[nm] = tensor.New(tensor.WithShape(sh...), tensor.WithBacking(make([]string, n)))
+						}
 					default: // failing call: wrong rank (six axes, or one axis less than declared)
 						in = fm.mkInputs()
 						if len(fm.inNames) > 0 {
